@@ -124,6 +124,9 @@ func flight4bGenerate(
 	); err != nil {
 		return nil, nil, err
 	}
+	if err = commitFinalServerHello(state, serverHelloMessage, cipherSuiteID); err != nil {
+		return nil, nil, err
+	}
 	decision := negotiation.DecideConnectionID(offer, serverHelloMessage.Extensions)
 	serverHello := handshake.Handshake{Message: serverHelloMessage}
 
